@@ -39,7 +39,7 @@ _ORIG_PUSH = None
 # ----------------------------------------------------------------------------
 # instance generation
 # ----------------------------------------------------------------------------
-THEMES = ['default'] * 6 + ['highcorr_budget', 'share_lo', 'share_lo', 'doubles', 'tfixed_budget', 'dyadic_share', 'early_shift']
+THEMES = ['default'] * 6 + ['highcorr_budget', 'share_lo', 'share_lo', 'doubles', 'tfixed_budget', 'dyadic_share', 'early_shift', 'one_sided']
 
 
 def gen_instance(rng, tier, max_admitted=5, force=None, theme=None):
@@ -51,6 +51,8 @@ def gen_instance(rng, tier, max_admitted=5, force=None, theme=None):
     tfixed_budget:   a geo fixed to treatment together with a budget range
     dyadic_share:    geo shares that are exact binary fractions (k/16, k/32, k/64) with a share range whose bounds are
                      such fractions: treatment shares land exactly on the bounds
+    one_sided:       every geo is eligible for one group only (or must be excluded): no design exists, both searches must
+                     still terminate with an empty list or ValueError
     early_shift:     one geo is three times larger before the analysis window than inside it, with a volume tolerance:
                      volumes taken from the whole history and from the window differ"""
   force = force or {}
@@ -138,7 +140,7 @@ def gen_instance(rng, tier, max_admitted=5, force=None, theme=None):
     lo = rng.randint(1, 3)
     params['control_geos_range'] = [lo, rng.randint(lo, 4)]
   if rng.random() < 0.35:
-    params['geo_ratio_tolerance'] = rng.choice([0.25, 0.5, 1.0, 2.0, 3.0, 0.1, 0.7])
+    params['geo_ratio_tolerance'] = rng.choice([0.25, 0.5, 1.0, 2.0, 3.0, 0.1, 0.7, 1e308, float('inf')])
   if rng.random() < 0.35:
     params['volume_ratio_tolerance'] = rng.choice([0.25, 0.5, 1.0, 2.0, 5.0, 0.33, 10.0])
   if rng.random() < 0.3:
@@ -175,6 +177,9 @@ def gen_instance(rng, tier, max_admitted=5, force=None, theme=None):
     params['n_pretest_max'] = max(n_test + 3, n_dates // 2)
     params.pop('budget_range', None)
     params['n_designs'] = rng.choice([3, 1000])
+  elif theme == 'one_sided':
+    side = rng.choice([[(0, 1, 0), (0, 1, 1), (0, 0, 1)], [(1, 0, 0), (1, 0, 1), (0, 0, 1)]])
+    elig = {g: list(rng.choice(side[:2] if i < 2 else side)) for i, g in enumerate(geos)}
   elif theme == 'tfixed_budget':
     if elig is None:
       elig = {g: [1, 1, 1] for g in geos}
@@ -187,7 +192,8 @@ def gen_instance(rng, tier, max_admitted=5, force=None, theme=None):
         params[k] = float(params[k])
     for k in ('treatment_geos_range', 'control_geos_range'):
       if params.get(k) is not None:
-        params[k] = [float(v) for v in params[k]]
+        # both ends, or only one of them, spelled as a float
+        params[k] = [float(v) if (j == 1 or rng.random() < 0.6) else v for j, v in enumerate(params[k])]
   if rng.random() < 0.04:
     params['iroas'] = rng.choice([0.0, 0])
   inst = {'geos': geos, 'n_dates': n_dates, 'rows': rows, 'elig': elig, 'params': params,
@@ -204,8 +210,10 @@ def build_frame(inst, id_type='str', date0='2020-01-01'):
   d0 = pd.Timestamp(date0)
   rows = inst['rows']
   geo = [r[0] for r in rows]
-  if id_type == 'int':
+  if id_type in ('int', 'int_object'):
     geo = [int(g) for g in geo]
+  if id_type == 'int_object':       # Python ints in an object column (feeds of mixed provenance concatenated)
+    geo = pd.Series(geo, dtype=object)
   return pd.DataFrame({'geo': geo,
                        'date': [d0 + pd.Timedelta(days=int(r[1])) for r in rows],
                        'response': [float(r[2]) for r in rows]})
@@ -662,8 +670,10 @@ def process(job):
                      'arr': t.arr, 'distinct_means': t.distinct_means, 'req_distinct': t.req_distinct,
                      'table_exceptions': t.table_exceptions, 'canT': t.canT, 'canC': t.canC,
                      'ext': t.ext, 'pair_ext': t.pair_ext}
-    rec['margin'] = min_margin(resolved, t)
-    rec['wire'] = wire_instance(iid, resolved, t) if t.n <= 8 else None
+    # an infinite ratio tolerance admits every ratio: for the model and the margins it is the same as none
+    finite = {k: v for k, v in resolved.items() if not (k in ('geo_ratio_tolerance', 'volume_ratio_tolerance') and math.isinf(v))}
+    rec['margin'] = min_margin(finite, t)
+    rec['wire'] = wire_instance(iid, finite, t) if t.n <= 8 else None
   except Exception as e:
     import traceback
     rec['harness_error'] = traceback.format_exc()[-2000:]
@@ -872,7 +882,7 @@ def constraint_report(r, T, C, t, which, ids=None, rec=None):
     bad_common.append(f'treatment size {len(T)} outside {p["treatment_geos_range"]}')
   if p.get('control_geos_range') is not None and not (p['control_geos_range'][0] <= len(C) <= p['control_geos_range'][1]):
     bad_common.append(f'control size {len(C)} outside {p["control_geos_range"]}')
-  if p.get('geo_ratio_tolerance') is not None and T:
+  if p.get('geo_ratio_tolerance') is not None and T and not math.isinf(p['geo_ratio_tolerance']):
     tol = Fraction(p['geo_ratio_tolerance'])
     ratio = Fraction(len(C), len(T))
     if ratio > 1 + tol or ratio < 1 / (1 + tol):
@@ -1095,12 +1105,19 @@ def judge_c03(out, res):
       out.oracle_violation(f, case_of(r, 'exh'), f'result not in non-increasing score order: {scores}')
     feas = feasible_designs(r, both_readings=True)
 
+    tfix_all = {i for i in range(t['n']) if t['cls'][i] == 'tFixed'}
+    tr_rng = p.get('treatment_geos_range')
+
     def omittable(T):
       if budget is None:
         return False
       lo, hi = budget
       for rr_ in range(1, len(T) + 1):
         for S in itertools.combinations(T, rr_):
+          # "its treatment group, or an admissible smaller sub-group of it": a sub-group the search itself could have
+          # taken as a treatment group (holds every geo fixed to treatment, not below the minimum size)
+          if len(S) < len(T) and (not tfix_all <= set(S) or (tr_rng is not None and len(S) < tr_rng[0])):
+            continue
           v = t['opt'].get(S)
           if v is not None and math.isfinite(v) and not (p['iroas'] != 0 and lo <= v / p['iroas'] <= hi):
             return True
@@ -1199,6 +1216,12 @@ def judge_c04(out, res):
             elif got[0] != (1.0 if d['diag_corr'] >= p.get('min_corr', 0.8) else 0.0):
               prob = (f'correlation test in the score is {got[0]} although the design\'s correlation {d["diag_corr"]!r} is '
                       f'{"at least" if d["diag_corr"] >= p.get("min_corr", 0.8) else "below"} min_corr = {p.get("min_corr", 0.8)!r}')
+            elif got[4] != round(d['diag_corr'], 2):
+              prob = f'fifth score entry {got[4]} is not the design\'s correlation {d["diag_corr"]!r} rounded to two decimals'
+            elif not budget_variant and not math.isclose(got[5], 1.0 / d['diag_impact'], rel_tol=1e-12):
+              prob = f'last score entry {got[5]} is not 1 / required impact = {1.0 / d["diag_impact"]}'
+            elif budget_variant and not math.isclose(got[5], p['budget_range'][1] / d['diag_impact'], rel_tol=1e-12):
+              prob = f'last score entry {got[5]} is not maximum budget / required impact = {p["budget_range"][1] / d["diag_impact"]}'
             elif got[:4] != want[:4]:
               prob = f'test outcomes in the score {got[:4]} differ from those recomputed from the series {want[:4]}'
             elif abs(got[4] - want[4]) > 1e-12:
